@@ -51,6 +51,7 @@ pub open spec fn cfun(c: v1::Constraint) -> v1::Function { match c.function { So
     asm.file('spec/c12_spec.rs')
     asm.file('spec/validate_spec.rs')
     types(asm)
+    asm.file('spec/qubo_spec.rs')
     asm.raw('} // mod lib\npub mod units {\n' + common.UNITS_USES + 'use super::lib::v1::instance::Sense;\nbroadcast use super::lib::ax_zero_f64, super::lib::ax_binary_ids_cmp, super::lib::ax_binary_id_pair_cmp;\n')
     asm.raw(fn_stubs.ZERO + qubo.STUBS, 'assumed callee contracts')
     for n in ('Function::zero', 'Instance::binary_ids', 'Function::used_decision_variable_ids (C08)', 'IntoIterator for &Function (term iterator)', 'TryFrom<SortedIds> for BinaryIdPair'):
@@ -63,14 +64,20 @@ pub open spec fn cfun(c: v1::Constraint) -> v1::Function { match c.function { So
 proof fn vacuity_pre(i: v1::Instance) requires i.constraints.len() == 0, i.sense == 1, forall|k: u64| #![trigger fn_used(ofun(i)).contains(k)] fn_used(ofun(i)).contains(k) ==> is_binary_id(i.decision_variables@, k), fn_used(ofun(i)).contains(3) { assert(false); }
 }
 ''', 'vacuity: acceptance conditions')
+    asm.guard('''pub mod guard_c11c { use vstd::prelude::*; use super::lib::*;
+proof fn vacuity_axioms(f: v1::Function, x: Map<u64, F64>, a: BinaryIds, b: BinaryIds, ids: Seq<u64>)
+    requires fn_fin(f), fterms(f).len() > 1, q_terms_ok(fterms(f), fterms(f).len() as int), forall|j: int| 0 <= j < fterms(f).len() ==> binary_on(x, (#[trigger] fterms(f)[j]).0.0@), a.0@ == b.0@, ids.len() > 2
+{ broadcast use ax_fterms_sum, ax_bkey, ax_binary_ids_ext, ax_zero_f64; lemma_qubo_value(fterms(f), fterms(f).len() as int, x); lemma_pubo_value(fterms(f), fterms(f).len() as int, x); assert(bkey(ids).0@ == ids.to_set()); assert(false); }
+}
+''', 'vacuity: term-list / key axioms and the premises of the value lemmas')
     asm.raw(common.FOOTER)
     return dict(
         min_items=6,
         trusted_base=common.TRUSTED_COMMON + common.T4_COLLECTIONS + [
             'T5 ASSUMED callee contracts: the term iterator of &Function (sorted id tuples over the function ids), Instance::binary_ids, Function::used_decision_variable_ids, BinaryIdPair::try_from (slice patterns are outside Verus)',
-            'T4: BTreeMap::entry(k).and_modify(|v| *v += c).or_insert(c) as the helper btreemap_add_or_insert; BinaryIds / BinaryIdPair obey the BTreeMap key model',
+            'T4: BTreeMap::entry(k).and_modify(|v| *v += c).or_insert(c) as the helper btreemap_add_or_insert; BinaryIds / BinaryIdPair obey the BTreeMap key model; a BinaryIds value is determined by the set it holds (ax_binary_ids_ext, ax_bkey)',
+            'T5 ASSUMED: the term list of &Function is a function of the message whose terms sum to the polynomial (fterms, ax_fterms_sum)',
         ],
         assumptions=common.A1,
-        not_covered=['the value identity sum_S c_S prod x_i = objective(x) on {0,1}^n (needs a summation spec over the BTreeMap and the exact epsilon-drop accounting of the accumulation loop: not built)',
-                     'QUBO refusal for monomials with more than two distinct variables (inside the assumed BinaryIdPair::try_from)'],
+        not_covered=['QUBO refusal for monomials with more than two distinct variables (inside the assumed BinaryIdPair::try_from)', 'the size of the explicit remainders qrem / prem (terms skipped or entries removed because numerically zero)'],
     )
